@@ -240,6 +240,10 @@ def gen_scenario(fl, rnd, ranks, nblocks, onerank, scale=1.0, clearrace=False):
         lines.append(s)
         return len(lines) - 1
 
+    # two containers of the same type are alive on the communicator, operations interleaved between them, each judged against
+    # its own model contents; in a third of the scenarios they get equal shares
+    pc0 = rnd.choice([0.8, 0.8, 0.5])
+
     for b in range(nblocks):
         blk = {"ops": [], "mut": None, "obs": [], "F": {}, "classes": {}}
         kind = "ops"
@@ -276,7 +280,7 @@ def gen_scenario(fl, rnd, ranks, nblocks, onerank, scale=1.0, clearrace=False):
                 # reach an owner in issue order), so every owner stores smaller AND larger keys when the next one arrives
                 sk = fl.sweep_keys()
                 for _ in range(rnd.randrange(1, 3)):
-                    r, c = rnd.randrange(ranks), 0 if rnd.random() < 0.8 else 1
+                    r, c = rnd.randrange(ranks), 0 if rnd.random() < pc0 else 1
                     run = sk[rnd.randrange(0, 8):rnd.randrange(12, len(sk) + 1)]
                     for k in (run if rnd.random() < 0.5 else run[::-1]):
                         ops.append((r, c, fl.sweep_op(rnd, k)))
@@ -285,22 +289,22 @@ def gen_scenario(fl, rnd, ranks, nblocks, onerank, scale=1.0, clearrace=False):
                 n = int(rnd.randrange(30, 70) * scale)
                 for _ in range(n):
                     k = rnd.choice(keys[:max(3, len(keys) // 2)]) if rnd.random() < 0.7 else rnd.choice(keys)
-                    ops.append((0, 0 if rnd.random() < 0.8 else 1, fl.rand_op(rnd, k)))
+                    ops.append((0, 0 if rnd.random() < pc0 else 1, fl.rand_op(rnd, k)))
             else:
                 ncont = rnd.randrange(2, 5)
                 for k in keys[:ncont]:                       # contended keys, order-dependent
-                    c = 0 if rnd.random() < 0.8 else 1
+                    c = 0 if rnd.random() < pc0 else 1
                     for _ in range(rnd.randrange(2, MAXSEARCH + 1)):
                         ops.append((rnd.randrange(ranks), c, fl.rand_op(rnd, k)))
                 rest = keys[ncont:]
                 for k in rest[:rnd.randrange(0, 3)]:         # heavy keys, order-independent
-                    c = 0 if rnd.random() < 0.8 else 1
+                    c = 0 if rnd.random() < pc0 else 1
                     cls, hops = fl.heavy_ops(rnd, k, int(rnd.randrange(7, 30) * scale))
                     for o in hops:
                         ops.append((rnd.randrange(ranks), c, o))
                 for k in rest[3:]:                           # singles
                     if rnd.random() < 0.6:
-                        ops.append((rnd.randrange(ranks), 0 if rnd.random() < 0.8 else 1, fl.rand_op(rnd, k)))
+                        ops.append((rnd.randrange(ranks), 0 if rnd.random() < pc0 else 1, fl.rand_op(rnd, k)))
                 rnd.shuffle(ops)
         for (r, c, o) in ops:
             li = add(f"o {r} {c} " + " ".join(o))
@@ -363,7 +367,9 @@ def run_case(binary, fl, case, scn_lines):
         env = {"YGM_COMM_ROUTING": case["routing"]}
         if case["buffer"] is not None:
             env["YGM_COMM_BUFFER_SIZE_KB"] = case["buffer"]
-        return C.run_sim(binary, [fl.what, fl.kinds, p, fl.variant], nodes=case["nodes"], ppn=case["ppn"], env=env,
+        tc = case.get("twocomm")
+        comms = f"{tc['order']}-{tc['split']}" if tc else "w"
+        return C.run_sim(binary, [fl.what, fl.kinds, p, fl.variant, comms], nodes=case["nodes"], ppn=case["ppn"], env=env,
                          sim_seed=case["sim_seed"], policy=case["policy"], eager_pct=case.get("eager", 50), want_log=False,
                          timeout=case.get("timeout", 40), max_steps=400000, livelock=100000)
     finally:
@@ -447,12 +453,37 @@ class Analysis:
         return not self.fail_o and not self.fail_c
 
 
-def analyse(fl, scn, sr, case, res, model_ok):
-    """compare one real run with the model; returns True when everything agreed"""
+def restrict(scn, R):
+    """the scenario as seen by a communicator of R ranks: ranks named by the script that do not exist issue nothing"""
+    blocks = [dict(b, ops=[o for o in b["ops"] if o[1] < R]) for b in scn["blocks"]]
+    return dict(scn, blocks=blocks)
+
+
+def split_phases(outs):
+    """per-process output -> {(phase, group): {rank in that communicator: lines}}, sizes {(phase, group): size}, order [phases]"""
+    runs, sizes, order = {}, {}, []
+    for w in sorted(outs):
+        cur = None
+        for l in outs[w]:
+            if l.startswith("PH "):
+                t = l.split()
+                cur = (t[1], int(t[2]))
+                runs.setdefault(cur, {})[int(t[3])] = []
+                sizes[cur] = int(t[4])
+                if t[1] not in order:
+                    order.append(t[1])
+                cur = runs[cur][int(t[3])]
+            elif cur is not None:
+                cur.append(l)
+    return runs, sizes, order
+
+
+def analyse(fl, scn, outs, R, case, res, model_ok):
+    """compare one real run (one communicator of R ranks) with the model; returns True when everything agreed"""
     A = Analysis(fl, case, res)
-    R = case["nodes"] * case["ppn"]
+    scn = restrict(scn, R)
     onerank = R == 1
-    parsed = [parse_rank(sr.outs.get(r, [])) for r in range(R)]
+    parsed = [parse_rank(outs.get(r, [])) for r in range(R)]
     owners = parsed[0][0]
     for r in range(R):
         if parsed[r][0] != owners:
@@ -778,6 +809,12 @@ def make_cases(flavours, tier, seed):
                       "policy": POLICIES[(j // 5 + j) % 5], "sim_seed": rnd.randrange(1, 1 << 30), "gen_seed": rnd.randrange(1 << 30),
                       "blocks": 4 if tier == "quick" else 7, "eager": rnd.choice([0, 50, 100]),
                       "scale": 1.0 if tier == "quick" else rnd.choice([1.0, 1.0, 3.0])})
+        if i % 4 == 1:
+            # two communicators in one process: the scenario runs on a sub-communicator (MPI_Comm_split of the world) and on
+            # the world communicator, same code and types; state wrongly kept per process is initialised by the first run
+            cases[-1]["twocomm"] = {"order": "sw" if (i // 4) % 3 != 2 else "ws", "split": "last" if (i // 4) % 2 == 0 else "parity"}
+            if tier != "quick":
+                cases[-1]["scale"] = 1.0
     return cases
 
 
@@ -811,7 +848,28 @@ def do_case(binary, case, model_ok, res_factory=C.Result):
         frag.oracle_failures.append({"what": f"real run failed: {sr.verdict}", "signature": f"{fl.what}-run-failed {sr.verdict.split(':')[0]}",
                                      "case": dict(pub, stderr=(sr.stderr or "")[-400:])})
         return case, frag, info
-    ok, contended = analyse(fl, scn, sr, pub, frag, model_ok)
+    runs, sizes, order = split_phases(sr.outs)
+    expect = [("world", 0)]
+    tc = case.get("twocomm")
+    if tc:
+        expect += [("sub", 0), ("sub", 1)]
+    contended = 0
+    for key in expect:
+        if key not in runs or len(runs[key]) != sizes.get(key):
+            frag.corr_failures.append({"relation": "harness completed the scenario", "what": f"no / incomplete output for run {key}", "case": pub})
+            continue
+        if key[0] == "world":
+            if sizes[key] != R:
+                frag.corr_failures.append({"relation": "world communicator size", "what": f"{sizes[key]} != {R}", "case": pub})
+                continue
+            _, cn = analyse(fl, scn, runs[key], R, dict(pub, run="world" + (" (" + ("second" if order[0] == "sub" else "first") + ")" if tc else "")),
+                            frag, model_ok)
+            contended += cn
+        else:
+            # the same scenario on a sub-communicator of the same process, same template instantiations
+            analyse(fl, scn, runs[key], sizes[key], dict(pub, run=f"sub-communicator group {key[1]} of {sizes[key]} ranks "
+                                                         f"({'first' if order[0] == 'sub' else 'second'})"), frag, model_ok)
+            frag.count("runs on a sub-communicator (judged)")
     info["contended"] = contended
     return case, frag, info
 
@@ -850,6 +908,8 @@ def run_flavours(flavours, tier, seed, model_ok, rule, assumptions, race_env=Non
         res.count("operations", info["nops"])
         if case.get("clearrace"):
             res.count("cases: clear() then operations without barrier")
+        if case.get("twocomm"):
+            res.count(f"cases: two communicators in one process ({case['twocomm']['order']}, split {case['twocomm']['split']})")
         if info["skipped"]:
             res.count("skipped: messaging-layer abort (C03)")
             res.notes.append(f"skipped {case_public(case)}: {info['why']}")
